@@ -3,6 +3,7 @@ import Orx.IW.HB
 import Orx.IW.Weak
 import Orx.Generated.Orderings
 import Orx.GenThms.ProtoSim
+import Orx.GenThms.ProtoSimBuf
 /-! # C07 Wrapped iterator is used exclusively and in order -/
 namespace Orx.Props.C07
 open Orx Orx.IW
@@ -164,5 +165,27 @@ theorem source_publish_assertion_never_fires (s : Script) (ps : Nat → List Req
     (σ : List Nat) (hW : (run s σ (init ps)).R < W) (t : Nat) (r : Req) (b : Nat) (acc : List Nat)
     (hpc : ((run s σ (init ps)).th t).pc = .pub r b acc) : (run s σ (init ps)).Y = b :=
   GenThms.Proto.publish_assertion_holds s ps hps σ hW t r b acc hpc
+
+
+/-- **Buffered requests** (`for_each`/`fold` with chunk size > 1, `buffered_iter`): the model's thread executes the
+translated `BufferedIter::next` (buffered_iter.rs) with `BufferIter::pull` (buffered/iter.rs) — reserve `chunk_size`,
+look at `completed`, spin for the turn, fill the reused buffer under the drop guard, mark the end if it stays short,
+publish on `yielded`. For every stale content `buf` of the thread's buffer and every fuel. -/
+theorem source_buffered_protocol_is_the_models (s : Script) (ps : Nat → List Req) (hps : ∀ t, ∀ r ∈ ps t, ReqOk r)
+    (σ : List Nat) (hW : (run s σ (init ps)).R < W) (t F k : Nat) (hk : 1 ≤ k) (buf : List (Option Nat))
+    (hn : buf.length < W) (hF : buf.length ≤ F) (l : Bool)
+    (hreq : ∀ r, GenThms.Proto.pcReq ((run s σ (init ps)).th t).pc = some r → r = .buffered buf.length l)
+    (ha : actOf ((run s σ (init ps)).th t).pc ≠ none) (hskp : ((run s σ (init ps)).th t).pc ≠ .skp) :
+    let c := run s σ (init ps)
+    let pc := (c.th t).pc
+    GenThms.Proto.head (GenThms.Proto.treeAtB F k buf pc) = actOf pc ∧
+    GenThms.Proto.child (GenThms.Proto.treeAtB F k buf pc) (respOf s c pc) =
+      some (GenThms.Proto.contOfB F k buf pc (lstep pc (respOf s c pc))) ∧
+    step s t c = setTh (effOf c pc) t (applyL (c.th t) (lstep pc (respOf s c pc))) :=
+  GenThms.Proto.model_buffered_thread_follows_source s ps hps σ hW t F k hk buf hn hF l hreq ha hskp
+
+theorem source_buffered_request_is_the_translated_function (F : Nat) (buf : List (Option Nat)) (l : Bool) :
+    GenThms.Proto.reqTreeB F buf = GenThms.Proto.treeAtB F F buf (.resv (.buffered buf.length l)) :=
+  GenThms.Proto.reqTreeB_eq F buf l
 
 end Orx.Props.C07
